@@ -10,7 +10,7 @@ LEVEL = "exploration"
 RULE = ("Pairs and triples of type-directed random literal-syntax values of the SAME type, each operand built by a "
         "separate source expression (never a shared variable); 50% of pairs are structurally equal by independent "
         "re-construction, the others are random or single-point mutations of the first value. Oracle: `a == b` is "
-        "True iff the model's structural equality holds (floats by printed form, -0.0 not generated; dicts as "
+        "True iff the model's structural equality holds (floats by printed form, signed zeros included in one case of eight; dicts as "
         "key->value maps), `a != b` is its negation, `b == a` agrees, `a == a` through one variable is True, and "
         "equality is transitive on equal triples. Non-trivial = an equal-by-construction pair containing a float, a "
         "dict, a struct/enum value or nesting depth >= 2; distinct = distinct pair.")
@@ -87,6 +87,44 @@ def no_negzero(v):
     return v
 
 
+def set_first_float(v, x):
+    """-> (value with its first Float replaced by x, replaced?)"""
+    k = v[0]
+    if k == "Float":
+        return ("Float", x), True
+    if k in ("List", "Tuple"):
+        items = list(v[1])
+        for i, it in enumerate(items):
+            n, done = set_first_float(it, x)
+            if done:
+                items[i] = n
+                return (k, items), True
+        return v, False
+    if k == "Dict":
+        items = list(v[1])
+        for i, (kk, it) in enumerate(items):
+            n, done = set_first_float(it, x)
+            if done:
+                items[i] = (kk, n)
+                return (k, items), True
+        return v, False
+    if k in ("Some", "Ok", "Err"):
+        n, done = set_first_float(v[1], x)
+        return ((k, n), True) if done else (v, False)
+    if k == "Struct":
+        fs = list(v[2])
+        for i, (f, it) in enumerate(fs):
+            n, done = set_first_float(it, x)
+            if done:
+                fs[i] = (f, n)
+                return (k, v[1], fs), True
+        return v, False
+    if k == "Variant" and v[2] is not None:
+        n, done = set_first_float(v[2], x)
+        return ((k, v[1], n), True) if done else (v, False)
+    return v, False
+
+
 def shuffle_dicts(r, v):
     """Independent re-construction: same value, dict entries written in another order."""
     k = v[0]
@@ -117,6 +155,13 @@ def gen(r):
         else:
             b = no_negzero(V.gen_value(r, t))
         third = shuffle_dicts(r, b) if r.bool(0.5) else no_negzero(mutate(r, b))
+        if r.int(0, 7) == 0:
+            # signed zeros: the same value except that one side has 0.0 where the other has -0.0 (printed forms differ)
+            a0, ok_a = set_first_float(a, 0.0)
+            b0, ok_b = set_first_float(a, -0.0)
+            if ok_a and ok_b:
+                a, b = a0, b0
+                third = shuffle_dicts(r, b)
         groups.append([V.to_json(a), V.to_json(b), V.to_json(third)])
     return {"groups": groups}
 
@@ -162,6 +207,11 @@ def check(case, ctx) -> Res:
                 a = V.from_json(g[0])
                 kinds = V.features(a) & {"Float", "Dict"}
                 sig = f"`==` disagrees with structural equality ({'/'.join(sorted(kinds)) or a[0]})"
+                va, vb, vc = (V.from_json(x) for x in g)
+                x, y = {"a == b": (va, vb), "a != b": (va, vb), "b == a": (vb, va), "b == c": (vb, vc),
+                        "a == c": (va, vc)}.get(lab, (va, va))
+                if V.canon(no_negzero(x)) == V.canon(no_negzero(y)) and V.canon(x) != V.canon(y):
+                    sig = "`-0.0 == 0.0` is True although the printed forms differ"
                 return fail(sig, f"{lab}: expected {e}, got {gval}\na = {sa}\nb = {sb}\nc = {sc}")
     return Res(ok=True, nontrivial=nt > 0, classes=tuple(sorted(classes)), extra=len(snippets))
 
